@@ -97,6 +97,10 @@ def gen_put(rng, nargs=None, allow_dots=True, allow_missing=True, allow_mount=Tr
     env = {}
     if '--home-fallback' in argv and rng.random() < 0.7:
         env['TRASH_ENABLE_HOME_FALLBACK'] = '1'
+    if rng.random() < 0.12:
+        # variables that mean something to OTHER commands (trash-empty's test clock) or to the C library (a time zone with daylight
+        # saving in force on the day of the run) mean nothing to trash-put: the DeletionDate is the local time of day of the clock
+        env = dict(env, **rng.choice([{'TRASH_DATE': '2001-01-01T00:00:00'}, {'TZ': 'XST5XDT,M3.2.0,M11.1.0'}, {'TZ': 'XST-1XDT,M2.3.0/2,M10.5.0/3'}]))
     step = {'cmd': 'put', 'argv': argv + ['--'] + [a['arg'] for a in args], 'now': [2024, 5, 6, 7, 8, 9, 0], 'stdin': stdin, 'env': env,
             'randints': [rng.randint(0, 65535) for _ in range(8)]}
     scn = lay.scenario([step], cwd=cwd, extra=nodes)
